@@ -6,6 +6,8 @@ import (
 	"os"
 	"path/filepath"
 
+	"github.com/cockroachdb/pebble/v2/vfs"
+
 	"github.com/canopy-network/canopy/bft"
 	"github.com/canopy-network/canopy/controller"
 	"github.com/canopy-network/canopy/fsm"
@@ -128,6 +130,9 @@ func Logger() lib.LoggerI {
 
 // CNode is a real controller.Controller over a real in-memory store.
 type CNode struct {
+	FS      vfs.FS      // pebble file system held by the harness (nil: store.NewStoreInMemory)
+	Genesis *fsm.GenesisState
+	Tweak   func(*lib.Config)
 	BC      *store.VerifBlockCache // this node's "process-wide" block cache (each node simulates its own process)
 	Dir     string
 	KeyIdx  int
@@ -136,8 +141,42 @@ type CNode struct {
 	SelfTxs [][]byte // transactions the node tried to submit to its root chain (certificate results)
 }
 
+// NewCNodeFS is NewCNode over a harness-held in-memory pebble FS, so the node can be stopped and started again.
+func NewCNodeFS(g *fsm.GenesisState, keyIdx int, tweak func(*lib.Config), fs vfs.FS) (*CNode, error) {
+	n, err := newCNode(g, keyIdx, tweak, fs, "")
+	return n, err
+}
+
 func NewCNode(g *fsm.GenesisState, keyIdx int, tweak func(*lib.Config)) (*CNode, error) {
-	dir := ScratchDir("cnode")
+	return newCNode(g, keyIdx, tweak, nil, "")
+}
+
+// RestartProcess stops the node (closing its database) and starts it again from the same file system with fresh
+// in-memory state (new block cache, new FSM, new controller, new mempool), as a process restart does.
+func (n *CNode) RestartProcess() error {
+	if n.FS == nil {
+		return fmt.Errorf("node has no re-openable file system")
+	}
+	func() {
+		defer func() { _ = recover() }()
+		n.C.Mempool.FSM.Discard()
+		n.C.FSM.Discard()
+	}()
+	if err := n.Store.Close(); err != nil {
+		return fmt.Errorf("close: %v", err)
+	}
+	m, err := newCNode(n.Genesis, n.KeyIdx, n.Tweak, n.FS, n.Dir)
+	if err != nil {
+		return err
+	}
+	*n = *m
+	return nil
+}
+
+func newCNode(g *fsm.GenesisState, keyIdx int, tweak func(*lib.Config), fs vfs.FS, dir string) (*CNode, error) {
+	if dir == "" {
+		dir = ScratchDir("cnode")
+	}
 	c := DefaultConfig(dir)
 	c.RunVDF = false
 	c.LazyMempoolCheckFrequencyS = 0
@@ -154,7 +193,13 @@ func NewCNode(g *fsm.GenesisState, keyIdx int, tweak func(*lib.Config)) (*CNode,
 	log := Logger()
 	bc := store.VerifNewBlockCache()
 	store.VerifSwapBlockCache(bc)
-	st, e := store.NewStoreInMemory(log, c)
+	var st lib.StoreI
+	var e lib.ErrorI
+	if fs != nil {
+		st, e = store.VerifOpenStoreOnFS(fs, "db", c, log)
+	} else {
+		st, e = store.NewStoreInMemory(log, c)
+	}
 	if e != nil {
 		return nil, e
 	}
@@ -166,7 +211,7 @@ func NewCNode(g *fsm.GenesisState, keyIdx int, tweak func(*lib.Config)) (*CNode,
 	if e != nil {
 		return nil, fmt.Errorf("controller.New: %v", e)
 	}
-	n := &CNode{BC: bc, Dir: dir, KeyIdx: keyIdx, C: ctl, Store: st.(*store.Store)}
+	n := &CNode{FS: fs, Genesis: g, Tweak: tweak, BC: bc, Dir: dir, KeyIdx: keyIdx, C: ctl, Store: st.(*store.Store)}
 	ctl.RCManager = &SelfRC{N: n}
 	// what Controller.Start() does once the root-chain info is available: build the first cached proposal
 	reset := ctl.SetFSMInConsensusModeForProposals()
